@@ -351,6 +351,104 @@ func (c *mergeC) Exec(op string) string {
 			}
 			return showConfig(m)
 		})
+	case len(w) == 3 && w[0] == "mglob":
+		mb, e1 := strconv.Atoi(w[1])
+		mo, e2 := strconv.Atoi(w[2])
+		if e1 != nil || e2 != nil || mb < 0 || mb > 63 || mo < 0 || mo > 63 {
+			return "bad-op"
+		}
+		return Safe(func() string {
+			if c.dir == "" {
+				c.dir, _ = os.MkdirTemp("", "pcmerge")
+			}
+			// the project-level sections of two files: bit k of a mask says whether that file mentions key k
+			// (0 shell_command, 1 shell_argument, 2 log_length, 3 version, 4 environment, 5 vars)
+			glob := func(mask int, tag string, ext string) []byte {
+				vals := map[string][2]string{"sc": {"sh", "bash"}, "sa": {"-c", "-ec"}, "ln": {"111", "222"}}
+				pick := func(k string) string {
+					if tag == "B" {
+						return vals[k][0]
+					}
+					return vals[k][1]
+				}
+				y := ""
+				if ext != "" {
+					y += "extends: " + ext + "\n"
+				}
+				if mask&3 != 0 {
+					y += "shell:\n"
+					if mask&1 != 0 {
+						y += "  shell_command: \"" + pick("sc") + "\"\n"
+					}
+					if mask&2 != 0 {
+						y += "  shell_argument: \"" + pick("sa") + "\"\n"
+					}
+				}
+				if mask&4 != 0 {
+					y += "log_length: " + pick("ln") + "\n"
+				}
+				if mask&8 != 0 {
+					y += "version: \"v" + tag + "\"\n"
+				}
+				if mask&16 != 0 {
+					y += "environment:\n  - \"G=" + tag + "\"\n  - \"" + tag + tag + "=1\"\n"
+				}
+				if mask&32 != 0 {
+					y += "vars:\n  v: \"" + tag + "\"\n  " + strings.ToLower(tag) + ": \"1\"\n"
+				}
+				y += "processes:\n  p" + tag + ":\n    command: \"true\"\n"
+				return []byte(y)
+			}
+			bdir := filepath.Join(c.dir, "gbase")
+			cdir := filepath.Join(c.dir, "gchild")
+			_ = os.MkdirAll(bdir, 0o755)
+			_ = os.MkdirAll(cdir, 0o755)
+			bf := filepath.Join(bdir, "base.yaml")
+			of := filepath.Join(cdir, "over.yaml")
+			ef := filepath.Join(cdir, "child.yaml")
+			_ = os.WriteFile(bf, glob(mb, "B", ""), 0o644)
+			_ = os.WriteFile(of, glob(mo, "O", ""), 0o644)
+			_ = os.WriteFile(ef, glob(mo, "O", "../gbase/base.yaml"), 0o644)
+			show := func(p *types.Project) string {
+				either := mb | mo
+				f := func(bit int, v string) string {
+					if either&bit == 0 {
+						return "-"
+					}
+					return v
+				}
+				sc, sa := "nil", "nil"
+				if p.ShellConfig != nil {
+					sc, sa = p.ShellConfig.ShellCommand, p.ShellConfig.ShellArgument
+				}
+				env := []string{}
+				for _, e := range p.Environment {
+					env = append(env, e)
+				}
+				sort.Strings(env)
+				vs := []string{}
+				for k, v := range p.Vars {
+					vs = append(vs, fmt.Sprintf("%s:%v", k, v))
+				}
+				sort.Strings(vs)
+				names := []string{}
+				for n := range p.Processes {
+					names = append(names, n)
+				}
+				sort.Strings(names)
+				return fmt.Sprintf("sc=%s sa=%s ln=%s ve=%s en=%s va=%s procs=%s", f(1, sc), f(2, sa), f(4, strconv.Itoa(p.LogLength)), f(8, p.Version),
+					f(16, strings.Join(env, ",")), f(32, strings.Join(vs, ",")), strings.Join(names, ","))
+			}
+			two, err := loader.Load(&loader.LoaderOptions{FileNames: []string{bf, of}, IsInternalLoader: true})
+			if err != nil {
+				return "load-error:two:" + strings.ReplaceAll(err.Error(), " ", "_")
+			}
+			ext, err := loader.Load(&loader.LoaderOptions{FileNames: []string{ef}, IsInternalLoader: true})
+			if err != nil {
+				return "load-error:ext:" + strings.ReplaceAll(err.Error(), " ", "_")
+			}
+			return "two:" + strings.ReplaceAll(show(two), " ", ";") + " ext:" + strings.ReplaceAll(show(ext), " ", ";")
+		})
 	case len(w) == 3 && w[0] == "mfiles":
 		b, _, ok1 := parseAProj(w[1])
 		o, _, ok2 := parseAProj(w[2])
@@ -529,6 +627,22 @@ func (c *mergeC) Gen(r *rand.Rand, tier string, emit func(string)) {
 	nf := 60
 	if tier == "thorough" {
 		n, nf = 20000, 1500
+	}
+	// project-level sections of two files (and of a file extending a base): which keys each mentions
+	gm := []int{0, 1, 2, 4, 8, 16, 32, 63, 3}
+	// (a shell section needs a shell_command in at least one of the files: the loader rejects an empty one)
+	okMasks := func(a, b int) bool { return (a|b)&2 == 0 || (a|b)&1 != 0 }
+	for _, a := range gm {
+		for _, b := range gm {
+			if okMasks(a, b) {
+				emit(fmt.Sprintf("mglob %d %d", a, b))
+			}
+		}
+	}
+	for i := 0; i < nf/2; i++ {
+		if a, b := r.Intn(64), r.Intn(64); okMasks(a, b) {
+			emit(fmt.Sprintf("mglob %d %d", a, b))
+		}
 	}
 	for i := 0; i < n; i++ {
 		emit(fmt.Sprintf("menv %s %s", genEnvList(r), genEnvList(r)))
